@@ -507,7 +507,7 @@ func c11real(c *wk.Ctx, i int, rng *rand.Rand) {
 }
 
 func c11(c *wk.Ctx) {
-	c.Note("rule", "fault enumeration over one scenario: a real bus.Client on a harness stream, three OnDisconnect callbacks, one subscription, K in {1,3,8} concurrent calls answered by a scripted peer (one event, then each reply). The fault-free run counts the client's I/O operations (reads per fragment, one write per frame); plans: a fault (EOF, reset, short count + error; sticky) at every operation index, peer close after every byte count of its output, local Close() at every operation, a second fault at a later operation (thorough), a peer that stops reading after every byte count of the client's output (8-byte buffer: a Send is blocked mid-write) followed by a local Close() or a peer close, and the early-reply schedule (Send returns only after the reply was consumed by the reader); each under whole-read and fragmented-read delivery, a quarter with a stream whose Close reports an error, a third with a disconnect callback that blocks until the calls in flight have returned; stream real = the same oracle over unix and tcp with the real server: 1-6 calls parked inside the method body, then Server.Terminate() or the client closing its session. Oracle: every call returns (quiescence detector), success only with its own reply; without a fault every call succeeds; after the fault later calls fail, the events channel is closed, the disconnect callback ran exactly once. Distinct non-trivial = distinct plans whose fault was actually reached while a call or the subscription was pending.")
+	c.Note("rule", "fault enumeration over one scenario: a real bus.Client on a harness stream, three OnDisconnect callbacks, one subscription, K in {1,3,8} concurrent calls answered by a scripted peer (one event, then each reply). The fault-free run counts the client's I/O operations (reads per fragment, one write per frame); plans: a fault (EOF, reset, short count + error; sticky) at every operation index, peer close after every byte count of its output, local Close() at every operation, a second fault at a later operation (thorough), a peer that stops reading after every byte count of the client's output (8-byte buffer: a Send is blocked mid-write) followed by a local Close() or a peer close, and the early-reply schedule (Send returns only after the reply was consumed by the reader); each under whole-read and fragmented-read delivery, a quarter with a stream whose Close reports an error, a third with a disconnect callback that blocks until the calls in flight have returned; stream stalled = unix, tcp, tls and fd-passing pipe connections to a peer that accepts and then stops reading: 1-5 calls with 1-4 MiB of arguments (a Send blocked in the kernel mid-message), then a local Close() or a close by the peer: every call fails, a later call fails, both disconnect callbacks fire once; stream real = the same oracle over unix and tcp with the real server: 1-6 calls parked inside the method body, then Server.Terminate() or the client closing its session. Oracle: every call returns (quiescence detector), success only with its own reply; without a fault every call succeeds; after the fault later calls fail, the events channel is closed, the disconnect callback ran exactly once. Distinct non-trivial = distinct plans whose fault was actually reached while a call or the subscription was pending.")
 	type cfg struct{ K, Frag int }
 	cfgs := []cfg{{1, 0}, {1, 7}, {3, 0}, {3, 5}}
 	if c.Thorough() {
@@ -630,5 +630,6 @@ func c11(c *wk.Ctx) {
 			c.Sample(detail)
 		}
 	})
+	c.Cases("stalled", c.Pick(48, 1200), func(i int, rng *rand.Rand) { c11stalled(c, i, rng) })
 	c.Cases("real", c.Pick(48, 6000), func(i int, rng *rand.Rand) { c11real(c, i, rng) })
 }
